@@ -320,14 +320,24 @@ class C14(Prop):
         if len(got) != len(want):
             return Mismatch('number of output rows (one per distinct key combination, plus subtotals)',
                             got, [[view(v) for v in w] for w in want], sig + ':rows', relation='spec')
-        # multiset match of rows
-        rest = list(want)
-        for g in got:
-            hit = next((w for w in rest if len(w) == len(g) and all(same(x, y) for x, y in zip(g, w))), None)
-            if hit is None:
+        # multiset match of rows. Because an undefined statistic accepts null AND NaN, one output row can be compatible
+        # with several expected rows: a greedy pairing could starve a later row, so find a perfect matching (augmenting paths)
+        compat = [[j for j, w in enumerate(want) if len(w) == len(g) and all(same(x, y) for x, y in zip(g, w))] for g in got]
+        owner = {}
+
+        def augment(i, seen):
+            for j in compat[i]:
+                if j in seen:
+                    continue
+                seen.add(j)
+                if j not in owner or augment(owner[j], seen):
+                    owner[j] = i
+                    return True
+            return False
+        for i, g in enumerate(got):
+            if not augment(i, set()):
                 return Mismatch('output row %r equals no group of the direct computation' % (g,), got,
                                 [[view(v) for v in w] for w in want], sig, relation='spec')
-            rest.remove(hit)
         return None
 
     def run_describe(self, case, ctx):
